@@ -79,6 +79,9 @@ type Program struct {
 	Tpls   []*Tpl    `json:"tpls"`
 	Entry  string    `json:"entry"`
 	Ctx    []*CtxVar `json:"ctx,omitempty"`
+	// Large lifts the evaluator's protective limits (steps, range length,
+	// include / inheritance depth) for the fixed large instances.
+	Large bool `json:"large,omitempty"`
 }
 
 // Tpl returns the template with the given name.
